@@ -143,6 +143,16 @@ def run_shard(ctx):
             rest = [x for x in gd["nodes"] if x not in (a, b)]
             C = rng.sample(rest, rng.randint(0, len(rest)))
             query(ctx, g, gd, a, b, sorted(C), gkey)
+    # edit histories: query one graph object, edit it in place, query the same object again
+    for _ in range(ctx.share({"quick": 300, "thorough": 6000}[ctx.tier])):
+        gd = gg.random_admg(rng, rng.randint(3, 5))
+        g = gg.to_nx(gd)
+        for _s in range(6):
+            for _q in range(3):
+                a, b = rng.sample(gd["nodes"], 2)
+                rest = [x for x in gd["nodes"] if x not in (a, b)]
+                query(ctx, g, gd, a, b, sorted(rng.sample(rest, rng.randint(0, len(rest)))), gg.key(gd) + "|hist")
+            gd = gg.edit_inplace(g, gd, rng)
     ncyc = 0
     for _ in range(ctx.share({"quick": 800, "thorough": 20000}[ctx.tier])):
         gd = random_cyclic(rng, rng.randint(3, 5))
